@@ -25,6 +25,14 @@ const void* yk_watch_ptr;
 uint32_t yk_watch_stores, yk_watch_loads;
 void* yk_thread_fn[4];
 uint32_t yk_threads_started;
+#ifdef YK_INTRUDER
+const uint32_t yk_win_lo = YK_WIN_LO, yk_win_hi = YK_WIN_HI;
+void (*yk_intruder_fn)(void);
+uint8_t yk_fired;
+uint32_t yk_retries;
+uint8_t yk_after_retry;
+uint32_t yk_fired_site, yk_fired_visit, yk_visits, yk_hookno, yk_fired_hookno;
+#endif
 #ifdef YK_SEQ
 int32_t yk_cur = -1;
 uint8_t yk_draining;
@@ -35,6 +43,7 @@ uint32_t yk_ctx_len[YK_MAXCTX];
 uint8_t yk_ctx_fin[YK_MAXCTX];
 uint8_t yk_done[YK_NT];
 uint32_t yk_thr_sleeps[YK_NT];
+uint32_t yk_thr_layers[YK_NT];
 uint8_t yk_parked[YK_NT];
 static uint32_t yk_fin_ctx[YK_NT];
 static uint32_t yk_start_ctx[YK_NT];
@@ -45,6 +54,7 @@ static yk_thr_fn yk_thr[YK_NT];
 void yk_thread(uint32_t i, void* fn) { if (i < YK_NT) yk_thr[i] = (yk_thr_fn)fn; }
 uint32_t yk_thread_done(uint32_t i) { return i < YK_NT ? yk_done[i] : 0; }
 uint32_t yk_ctx_of_finish(uint32_t i) { return i < YK_NT ? yk_fin_ctx[i] : 0; }
+const uint32_t yk_win_lo = YK_WIN_LO, yk_win_hi = YK_WIN_HI;
 uint8_t yk_allow[YK_MAXCTX];   /* optional schedule template: threads allowed in context c (bit mask; 0 = any) */
 void yk_allow_ctx(uint32_t c, uint32_t mask) { if (c < YK_MAXCTX) yk_allow[c] = (uint8_t)mask; }
 static void yk_one_context(uint32_t t, uint32_t allow)
